@@ -70,7 +70,7 @@ def run(tier):
             label = '%s:%s' % (sname, scope)
             outs = []
             for k, hs in enumerate(['0', '0', '1', '17'] if tier == 'thorough' else ['0', '0', '3']):
-                res, out, err = compiler.run_compiler(lines, w, scope, flags=('arduino', 'python', 'inmem') + (('pieces',) if k == 0 else ()), hashseed=hs, tag='-run%d' % k)
+                res, out, err = compiler.run_compiler(lines, w, scope, flags=('arduino', 'python', 'inmem') + (('pieces',) if k == 0 else ()) + (('warm',) if k == 2 else ()), hashseed=hs, tag='-run%d' % k)
                 if res is None:
                     chk.violation('%s:compiler' % label, 'compiler failed (run %d): %s' % (k, err), {})
                     break
@@ -104,6 +104,15 @@ def run(tier):
             a['label'] = label
             runs.append(a)
             idx[scope] = len(runs)
+            # the run that compiled the other scope first in the same process: its in-memory tables must still equal its files
+            if len(outs) > 2:
+                rc, out_, err_, _ = common.run_cmd([common.PY, os.path.join(common.VERIF, 'vf', 'pydrv_artifacts.py'), outs[2]], env=compiler.tool_env(), timeout=900)
+                if rc != 0:
+                    chk.violation('%s:artifacts-unreadable:second-compilation' % label, 'generated files could not be imported / parsed: %s' % err_[-1200:], {'stderr': err_[-2500:]})
+                else:
+                    a2 = json.loads(out_)
+                    a2['label'] = label + ':second-compilation-in-one-process'
+                    runs.append(a2)
         if 'basic' in idx and 'extended' in idx:
             pairs.append({'basic': idx['basic'], 'extended': idx['extended'], 'source': sname})
             # identical behaviour of zones emitted in both scopes (truncation-noted zones excepted)
